@@ -150,6 +150,8 @@ class Recorder:
             self.ev.append({'e': 'deliver', 'ok': ok, 'data': data, 'reqs': self.fm.take_issued(), 'raised': raised})
 
     def corrupt(self, pos, val):
+        if self.fm.regs[0][pos - 1] == val:
+            return                            # not a corruption
         self.fm.regs[0][pos - 1] = val
         self.ev.append({'e': 'corrupt', 'pos': pos, 'val': val})
 
@@ -814,12 +816,14 @@ def cases_enumerated(tier, rng):
     for _ in range(0 if quick else 8):
         ee_contents.append((rng.randrange(2), rng.randrange(256), rng.randrange(256), rand_f4(rng), rand_f4(rng),
                             [rng.randrange(256) for _ in range(5)], rng.choice([0, 255, rng.randrange(256)])))
+    nth = 0
     for (ver, ch, sp, p, r, a, fill) in ee_contents:
         out.append(case_eeprom(ver, ch, sp, p, r, a, fill))
         img_len = eeprom_image_len(ver)
         base = execute_image(case_eeprom(ver, ch, sp, p, r, a, fill))
+        nth += 1
         for pos in range(1, img_len + 1):
-            for val in range(256):
+            for val in (range(256) if (nth <= 2 or not quick) else range(pos % 5, 256, 5)):
                 if val != base[pos - 1]:
                     out.append(case_eeprom(ver, ch, sp, p, r, a, fill, corrupt=[(pos, val)]))
     # ---- EEPROM: random contents, uncorrupted / corrupted anywhere (also behind the image) / two bytes
@@ -846,13 +850,15 @@ def cases_enumerated(tier, rng):
             elif len(o) == 1:
                 lens = [(n,) for n in range(0, room - 1)]
             elif len(o) == 2:
-                step = 7 if quick else 1
+                step = 11 if quick else 1
                 lens = [(a, b) for a in range(0, room - 3) for b in ({0, 1, room - 4 - a} | set(range(0, room - 3 - a, step)))
                         if 0 <= b <= room - 4 - a]
                 if size == 272:
-                    lens = [x for x in lens if x[0] % 5 == 0]
+                    lens = [x for x in lens if x[0] % 11 == 0 and (x[1] % 3 == 0 or x[0] + x[1] == room - 4)]
             else:
                 grid = [0, 1, 2, 3, 30, 60] if quick else [0, 1, 2, 3, 5, 8, 13, 21, 34, 55, 64, 66, 68, 70, 89]
+                if size == 272:
+                    grid = [0, 1, 2, 56, 57, 58, 84]
                 lens = [(a, b, c) for a in grid for b in grid for c in grid if a + b + c + 6 <= room]
                 lens += [(a, b, room - 6 - a - b) for a in grid for b in grid if a + b + 6 <= room]
             for ln in lens:
@@ -874,7 +880,7 @@ def cases_enumerated(tier, rng):
                 if val != base[pos - 1]:
                     out.append(case_ow(pins, vid, pid, elems, corrupt=[(pos, val)]))
     # ---- lighthouse memory: subsets of the 16 base stations
-    for k in range(150 if quick else 3000):
+    for k in range(150 if quick else 1000):
         nbs = 16 if k % 10 else rng.choice([2, 4, 8])
         gs = sorted(rng.sample(range(16), rng.randrange(0, 17)))
         cs = sorted(rng.sample(range(16), rng.randrange(0, 17)))
@@ -882,7 +888,7 @@ def cases_enumerated(tier, rng):
             rng.shuffle(gs)
             rng.shuffle(cs)
         out.append(case_lh([rand_geo(rng, i, rand_f4) for i in gs], [rand_calib(rng, i, rand_f4) for i in cs], nbs))
-    for bits in range(0, 1 << 16, 257 if quick else 13):
+    for bits in range(0, 1 << 16, 257 if quick else 53):
         gs = [i for i in range(16) if bits >> i & 1]
         out.append(case_lh([rand_geo(rng, i, rand_f4) for i in gs], [rand_calib(rng, i, rand_f4) for i in gs[::2]], 16))
     # ---- lighthouse YAML file / parameter YAML file
@@ -1158,6 +1164,10 @@ def main(tier, seed, replay=None):
     traces = run_cases(cases)
     all_cases = sim_cases + cases
     all_traces = sim_traces + traces
+    order = list(range(len(all_cases)))
+    random.Random(seed).shuffle(order)          # balance the TLC batches (lighthouse traces are long)
+    all_cases = [all_cases[i] for i in order]
+    all_traces = [all_traces[i] for i in order]
     bad, drift = judge(out, all_traces, 'real code')
     out.conformance['code_to_spec'] = {'traces': len(all_traces), 'explained_by_design_spec': len(all_traces) - len(drift) - len(bad),
                                        'drift_examples': [{'fmt': all_cases[i]['fmt'], 'at': at, 'content': str(all_cases[i]['content'])[:200]}
@@ -1178,7 +1188,7 @@ def main(tier, seed, replay=None):
                 'Images, exhaustive single-byte corruptions of EEPROM and 1-wire images, every 1-wire key order x length grid covering '
                 'every element-area length, all deck bit-field combinations x name lengths, all RGB levels, seeded random contents; '
                 'distinct = distinct cases; each exercises at least one write or one parse of the real classes')
-    picks = [0, len(sim_cases), len(all_cases) // 2, len(all_cases) - 1]
+    picks = [next(i for i, c in enumerate(all_cases) if c['fmt'] == f) for f in ('eeprom', 'ow', 'deck', 'led')]
     out.samples = [{'case': str(strip(all_cases[i]))[:400], 'events': [{k: (str(v)[:120]) for k, v in e.items()} for e in all_traces[i]['ev'][:6]]}
                    for i in picks if i < len(all_cases)]
     out.exhaustive = False
